@@ -75,6 +75,9 @@ def generate(rng, tier, shard, nshards):
             if rng.random() < 0.4:
                 kw["yaw"] = float(rng.uniform(-170, 170))
         Q = smooth_quats(rng, N, 1.0 / freq) if given else None
+        if given and i % 8 in (3, 5):
+            # a trajectory read from a log: quaternions rounded to a few decimals (nearly, not exactly, unit) or stored with a common scale
+            Q = np.round(Q, int(rng.integers(4, 9))) if i % 8 == 3 else Q * gens.logu(rng, 0.5, 2.0)
         yield Case("Sensors(quaternions=)" if given else "Sensors(num_samples=)", ("given" if given else "random") + (":noisy" if noisy else ":noise-free"),
                    Q=Q, N=N, freq=freq, kw=kw, seed=int(rng.integers(2**31)))
 
@@ -140,8 +143,9 @@ def judge(ctx, s, p, kw):
     R = np.array(s.rotations, float)
     ctx.ok("one row per sample in every output", all(np.asarray(getattr(s, a)).shape[0] == N for a in ("gyroscopes", "accelerometers", "magnetometers", "quaternions", "rotations", "ang_pos", "ang_vel")) and (p["Q"] is None or N == len(p["Q"])) and (p["Q"] is not None or N == int(p["N"])))
     if p["Q"] is not None:
-        d = np.minimum(np.abs(Q - p["Q"]).max(axis=1), np.abs(Q + p["Q"]).max(axis=1)).max()
-        ctx.le("ground-truth quaternions are the given ones", d, 1e-15)
+        Qg = p["Q"] / np.linalg.norm(p["Q"], axis=1)[:, None]
+        d = np.minimum(np.abs(Q - Qg).max(axis=1), np.abs(Q + Qg).max(axis=1)).max()
+        ctx.le("ground-truth quaternions are the given ones (normalised)", d, 4e-16)
     ctx.le("quaternions are unit", np.abs(np.linalg.norm(Q, axis=1) - 1).max(), 1e-12)
     if "yaw" in kw:
         ctx.le("yaw= fixes the heading of the whole random trajectory (deg)", float(np.abs(np.degrees(np.array(s.ang_pos, float)[:, 2]) - kw["yaw"]).max()), 1e-9, {"yaw": kw["yaw"]})
